@@ -123,6 +123,22 @@ CHECKS = {
         'note': _NOTE + ' The .xls binary reader itself is exercised on the shipped fixtures only (no xlwt available).',
         'technique': 'property-based testing: model-derived expected output + differential (.xlsx vs .xls branch) + fault injection of sheet rules',
     },
+    'C07': {
+        'text': 'Networks whose links carry different amplifier bands (C, reduced C, short C, C+L multiband) and arbitrary carrier '
+                'lists placed on band edges and in band gaps through the real propagate() under the element recorder: the '
+                'frequency list after the pre-filter and after every element equals the own interval-arithmetic expectation, '
+                'per-channel data travels with its frequency, invalid spectra are rejected, carrier order is irrelevant '
+                '(bit-identical receiver arrays).',
+        'note': _NOTE,
+        'technique': 'property-based testing: reference interval arithmetic + metamorphic (permutation) + invariant per element',
+    },
+    'C17': {
+        'text': 'Generated topologies and SimParams through 1-3 export -> reload (real load path) -> redesign rounds: element set, '
+                'every exported parameter (1e-6) and connections stable; same input designed twice identical; receiver figures '
+                'of first and last round equal; SimParams identical before/after design (also failed designs, Raman spans).',
+        'note': _NOTE,
+        'technique': 'property-based testing: round trip over generated export/reload/redesign histories + global-state invariant',
+    },
 }
 
 _PENDING = 'check not built yet in this session (work in progress, see DESIGN.md §3)'
